@@ -2,12 +2,13 @@
 """Round 6: copies the staged, confirmed changes into /verif/seeded/<id>-r6/ with a meta.json that
 records the confirmation, what the check of the property reported as it stood at the start of the
 round (seed.log) and what the checks report after the round's additions (pass2.log, lab_*.log)."""
-import json, os, re, shutil, glob
-root = "/tmp/wt/stage"
+import json, os, re, shutil, glob, sys
+root = sys.argv[1] if len(sys.argv) > 1 else "/tmp/wt/stage"
+RND = sys.argv[2] if len(sys.argv) > 2 else "6"
 kept = 0
 for d in sorted(glob.glob(root + "/C*/[AB]")):
     prop, var = d.split("/")[-2:]
-    sid = f"{prop}-{var}-r6"
+    sid = f"{prop}-{var}-r{RND}"
     seed = open(os.path.join(d, "seed.log"), errors="replace").read() if os.path.exists(os.path.join(d, "seed.log")) else ""
     m = re.search(r"build=(\d+) suite=(\d+) demo_with_change=(\S+) demo_without_change=(\S+)", seed)
     if not m or m.group(1) != "0" or m.group(2) != "0" or m.group(3) in ("0", "n/a") or m.group(4) != "0":
@@ -28,13 +29,13 @@ for d in sorted(glob.glob(root + "/C*/[AB]")):
     det0 = sorted(k for k, v in asstood.items() if v["rc"] == 1 and v["violations"] > 0)
     det1 = sorted(set(det0) | set(k for k, v in after.items() if v["rc"] == 1 and v["violations"] > 0))
     json.dump({
-        "id": sid, "property": prop, "origin": "independent sub-agent given only the property text and a scratch worktree (round 6)",
+        "id": sid, "property": prop, "origin": "independent sub-agent given only the property text and a scratch worktree (round " + RND + ")",
         "summary": meta.get("summary"), "needs_to_manifest": meta.get("needs"), "demo_flags": meta.get("demo_flags", ""), "why_tests_pass": meta.get("why_tests_pass"),
         "confirmed": {"builds": True, "existing_suite_passes_with_change": True, "demo_fails_with_change": True, "demo_passes_without_change": True,
                       "how": "tools/seedrun.sh: scratch worktree of /repo HEAD; git apply patch.diff; go build ./...; go test -vet=off -count=1 ./...; demo copied to demo/demo_test.go and run with go test ./demo/; patch reverted; demo run again"},
-        "checks_run_as_they_stood_at_the_start_of_round_6": asstood,
-        "checks_run_after_the_round_6_additions": after,
-        "detected_at_the_start_of_round_6_by": det0,
+        ("checks_run_as_they_stood_at_the_start_of_round_6" if RND == "6" else "checks_run_first"): asstood,
+        ("checks_run_after_the_round_6_additions" if RND == "6" else "checks_run_after_further_additions"): after,
+        ("detected_at_the_start_of_round_6_by" if RND == "6" else "detected_in_the_first_run_by"): det0,
         "detected_by": det1,
         "notes": [l[6:].strip() for l in seed.splitlines() if l.startswith("NOTE: ")],
     }, open(os.path.join(out, "meta.json"), "w"), indent=1, ensure_ascii=False)
